@@ -48,3 +48,16 @@ fn streq(a: &str, b: &str) -> bool {
     }
     true
 }
+
+/// Stand-in for core::str::validations::run_utf8_validation (whose word-at-a-time fast path branches
+/// on buffer alignment): ASSERTS that the bytes are ASCII (so "the text is valid UTF-8" stays a
+/// proof obligation, it is not assumed) and accepts.
+#[allow(dead_code)]
+fn utf8_ascii_stub(v: &[u8]) -> std::result::Result<(), core::str::Utf8Error> {
+    let mut i = 0;
+    while i < v.len() {
+        assert!(v[i] < 128, "UTF8 text produced here must be ASCII");
+        i += 1;
+    }
+    Ok(())
+}
